@@ -28,6 +28,7 @@ def run(ctx, report):
         report.section(f"text escaping {name}", markup_text, ctx, report, path, name)
     report.section("WebVTT text", webvtt_text, ctx, report)
     report.section("blank lines", blank_lines, ctx, report)
+    report.section("no text loss", no_text_loss, ctx, report)
     report.not_decided += ["what a conformant XML/HTML/WebVTT/SRT parser makes of the output (no parser is run)",
                            "text whose own characters are line terminators; whitespace normalisation"]
     report.assume("xml.sax.saxutils.escape replaces & < >; bs4 formatter=None substitutes nothing")
@@ -149,3 +150,57 @@ def _strings_used(ctx, f):
                 if isinstance(v, str):
                     out.append(v)
     return out
+
+
+PRINTABLE_PROBES = ["a", "Z", "0", " ", "\u00e9", "\u4e2d", "\U0001F600", "\U00020BB7", "\u200f", "&", "<", ">", '"', "'", "-",
+                    "\t", "\n"]
+
+
+def no_text_loss(ctx, report):
+    """No writer deletes printable characters from what it writes: every regular-expression
+    substitution applied on the way out (in write() and the routines it reaches) whose replacement
+    is a constant must leave each printable probe character - ASCII, accented, CJK, two astral-plane
+    characters, markup characters, white space - in place.  (Patterns are constants of the source;
+    they are applied to the probes with the `re` module.)"""
+    from ..engines.regexuse import regex_uses
+    folder = ctx.memo("folder", lambda: Folder(ctx.index))
+    base_writer = ctx.index.find_class("BaseWriter")
+    writers = [c for c in ctx.index.subclasses(base_writer, strict=True)]
+    n_fn, n_sub, bad = 0, 0, []
+    seen = set()
+    for cls in writers:
+        wr = cls.find_method("write")
+        if wr is None:
+            continue
+        from ..core.astutil import closure
+        for f in closure(ctx.index, wr, depth=4, only_private=False):
+            if f.key in seen or f.module.path.startswith("pycaption/geometry") or f.cls is not None and \
+                    f.cls.name in ("CaptionSet", "Caption", "CaptionNode", "CaptionList"):
+                continue
+            seen.add(f.key)
+            n_fn += 1
+            for u in regex_uses(f, folder):
+                if u.method != "sub":
+                    continue
+                node = u.node
+                repl = node.args[1] if isinstance(node.func.value, ast.Name) and node.func.value.id == "re" and len(node.args) > 1 \
+                    else (node.args[0] if node.args else None)
+                if not (isinstance(repl, ast.Constant) and isinstance(repl.value, str)):
+                    continue
+                n_sub += 1
+                lost = []
+                for ch in PRINTABLE_PROBES:
+                    try:
+                        out = re.sub(u.pattern, repl.value, f"x{ch}y", flags=u.flags)
+                    except re.error as e:
+                        raise AnalysisError(f"{f.qualname}: pattern does not compile: {e}")
+                    if ch not in out and not (repl.value and repl.value in out):
+                        lost.append(f"U+{ord(ch):04X}")
+                if lost:
+                    bad.append({"routine": f.qualname, "pattern": u.pattern[:80], "replacement": repl.value,
+                                "printable_characters_deleted": lost})
+    if n_fn < 20:
+        raise AnalysisError(f"no text loss: only {n_fn} routines reached from the writers' write()")
+    report.check(not bad, "R-NO-TEXT-LOSS", ("pycaption/base.py", "BaseWriter"),
+                 "no substitution on the way out deletes printable characters",
+                 {"routines_scanned": n_fn, "constant_substitutions_found": n_sub, "offending": bad[:3]}, "1")
